@@ -26,7 +26,7 @@ func init() {
 		Assumptions: []string{"memguard.NewBufferFromBytes wipes its argument when it returns a live buffer (verified against the module-cache source in thorough tier)", "aliases are flow-insensitive (can hide a miss, never invent one)"},
 		Tech:        "static analysis: must-release (wipe-or-hand-over) dataflow on SSA over byte-slice sources, all CFG paths incl. error exits",
 		NeedU1:      true,
-		Rules:       []func(*Ctx){ruleC10Wipe, ruleC10NewCryptoKeyWipes, ruleC10FactoryWipes, ruleC10WipeNotEarly, ruleC10AccessorErrorDiscards, ruleC10AccessorForwardsActionResult, ruleC10NoUnwipedCopies},
+		Rules:       []func(*Ctx){ruleC10Wipe, ruleC10NewCryptoKeyWipes, ruleC10FactoryWipes, ruleC10WipeNotEarly, ruleC10AccessorErrorDiscards, ruleC10AccessorForwardsActionResult, ruleC10WipedBuffersAreOwned, ruleC10NoUnwipedCopies},
 	})
 }
 
